@@ -153,8 +153,12 @@ def execute(bodies, prefix, opcode_code_objects=(), phases=None):
         return {"results": None, "choices": sched.choices, "points": sched.points, "error": str(ex)}
     sched.current = first
     sched.baton[first].release()
-    if not sched.done.acquire(timeout=120):
-        return {"results": results, "choices": sched.choices, "points": sched.points, "error": "deadlock-or-timeout: no thread finished the run within 120 s"}
+    if not sched.done.acquire(timeout=float(os.environ.get("VERIF_SCHED_TIMEOUT", "120"))):
+        stacks = []
+        for tid_, fr in sys._current_frames().items():
+            stacks.append(f"--- thread {tid_}\n" + "".join(traceback.format_stack(fr)[-8:]))
+        return {"results": results, "choices": sched.choices, "points": sched.points,
+                "error": "deadlock-or-timeout: no thread finished the run in time; finished=%r current=%r\n%s" % (sched.finished, sched.current, "\n".join(stacks))}
     for t in threads:
         t.join(timeout=5)
     return {"results": results, "choices": sched.choices, "points": sched.points, "error": sched.error}
